@@ -6,3 +6,6 @@ pub(crate) mod rendezvous;
 pub(crate) mod slab_chain;
 pub(crate) mod sync;
 pub(crate) mod unsynchronized_ring;
+/// Verification seam H10: shadow loom cells for the payload slots (see the module docs).
+#[cfg(all(loom, excsn_fibre_verif))]
+pub(crate) mod verif_shadow;
